@@ -49,6 +49,24 @@ pub mod vx_axioms {
 }
 broadcast use vx_axioms::axiom_u8_array32_eq;
 
+// `.expect(..)` (R7): aborts unless a value is present
+pub trait VxExpect<T>: Sized {
+    spec fn vx_has(self, r: T) -> bool;
+    fn vx_expect(self) -> (r: T)
+        ensures self.vx_has(r);
+}
+impl<T> VxExpect<T> for Option<T> {
+    open spec fn vx_has(self, r: T) -> bool { self == Some(r) }
+    #[verifier::external_body]
+    fn vx_expect(self) -> (r: T) { unimplemented!() }
+}
+impl<T, E> VxExpect<T> for Result<T, E> {
+    open spec fn vx_has(self, r: T) -> bool { self == Ok::<T, E>(r) }
+    #[verifier::external_body]
+    fn vx_expect(self) -> (r: T) { unimplemented!() }
+}
+
+
 } // verus!
 verus! {
 // Vec::drain(..) consumed by a for loop, and its reversal (R18): the drained elements in order / in reverse
